@@ -25,4 +25,5 @@ package big
 //@   safety
 //@   requires i != nil && d != nil
 //@   ensures nonneg: err == nil ==> val(i) >= 0
+//@   ensures decimal: err == nil ==> strnumok(xmltext(), 10) && val(i) == strnum(xmltext(), 10)
 //@   mustfail canary: err != nil
